@@ -37,6 +37,7 @@ def ctxNonces (c : ErrCtx) : List Nat := sortNs (nonces c.trace ++ nonces c.rawS
 def showNs (ns : List Nat) : String := if ns.isEmpty then "-" else ".".intercalate (ns.map toString)
 
 def floatOf (s : String) : Float :=
+  if s = "inf" then 1.0 / 0.0 else if s = "-inf" then -1.0 / 0.0 else if s = "nan" then 0.0 / 0.0 else
   match s.splitOn "/" with
   | [a, b] => Float.ofInt (intD a) / Float.ofNat (natD b 1)
   | [a] => Float.ofInt (intD a)
